@@ -210,3 +210,26 @@ harness! {
         core::mem::forget(e);
     }
 }
+
+harness! {
+    // bound: select_balanced_simplex_indices / reorder_vertices_for_simplex (hooks), D=2, input lengths 0, 1, 2 (fewer than D+1 vertices) with UNRESTRICTED coordinates: None, no panic
+    #[kani::unwind(7)]
+    fn c19_simplex_selection_too_few_inputs() {
+        let v = [
+            Vertex::<f64, (), 2>::new_with_uuid(any_pt2(), uuid_n(1), None),
+            Vertex::<f64, (), 2>::new_with_uuid(any_pt2(), uuid_n(2), None),
+        ];
+        let r0 = hooks::select_balanced_simplex_indices(&v[..0]);
+        let r1 = hooks::select_balanced_simplex_indices(&v[..1]);
+        let r2 = hooks::select_balanced_simplex_indices(&v[..2]);
+        assert!(r0.is_none() && r1.is_none() && r2.is_none(), "fewer than D+1 vertices: no simplex");
+        let e = hooks::reorder_vertices_for_simplex(&v[..0], &[0, 1, 2]);
+        assert!(e.is_none());
+        kani::cover!(v[0].point().coords()[0].is_nan(), "non-finite coordinate reached");
+        kani::cover!(v[0].point().coords()[0] == 1.0, "finite coordinate reached");
+        core::mem::forget(r0);
+        core::mem::forget(r1);
+        core::mem::forget(r2);
+        core::mem::forget(e);
+    }
+}
